@@ -34,6 +34,8 @@ pub enum FuOp {
     ExpandFarm { u: usize, id: String, lp: usize, reward: (String, u128), funds: Funds },
     CloseFarm { u: usize, id: String },
     Advance { secs: u64 },
+    /// the epoch manager's owner restarts the epoch numbering: UpdateConfig with a genesis `secs_ahead` seconds from now (same duration)
+    EpochReconfig { secs_ahead: u64 },
     /// locked deposit through the pool manager (the only delegate)
     ProvideLock { u: usize, lp: usize, amount: u128, dur: u64, lock_id: Option<String> },
     /// the same through a single-asset deposit (swap half, then the pool manager calls itself)
@@ -188,6 +190,11 @@ pub fn apply(w: &mut World, op: &FuOp) -> Outcome {
         FuOp::Advance { secs } => {
             w.advance(*secs);
             Outcome::Ok(Default::default())
+        }
+        FuOp::EpochReconfig { secs_ahead } => {
+            let ema = w.epoch_manager.clone();
+            let g = w.now() + *secs_ahead;
+            w.exec(&user(w, OWNER), &ema, &mantra_dex_std::epoch_manager::ExecuteMsg::UpdateConfig { epoch_config: Some(mantra_dex_std::epoch_manager::EpochConfig { duration: cosmwasm_std::Uint64::new(DAY), genesis_epoch: cosmwasm_std::Uint64::new(g) }) }, &[])
         }
         FuOp::ProvideLock { u, lp, amount, dur, lock_id } => {
             let (id, d) = if *lp == 0 { ("o.a", ["uom", "uusd"]) } else { ("o.b", ["uusdc", "uom"]) };
@@ -611,6 +618,19 @@ impl FuChecker {
                 // F2, then the owner re-points pool_manager_addr to an unrelated account (positions on the old LP tokens keep earning)
                 v = self.seed_ops("F2");
                 v.push(FuOp::SetCfg { u: OWNER, field: "pool_manager".into(), val: C as u64 });
+            }
+            "F19" => {
+                // two farms paying the same denom one after the other; A claims 8 epochs of the first; the epoch manager's owner
+                // then restarts the epoch numbering (genesis an hour ahead); B stakes 99x as much at the new epoch 0; ten new epochs pass
+                v.push(pos(A, 0, 1000, DAY));
+                v.push(farm_op(fee, C, 0, Some(1), Some(11), ("uusdc", 1000), Some("e1")));
+                v.push(farm_op(fee, C, 0, Some(12), Some(22), ("uusdc", 1000), Some("e2")));
+                v.push(FuOp::Advance { secs: 8 * DAY });
+                v.push(FuOp::Claim { u: A, until: None });
+                v.push(FuOp::EpochReconfig { secs_ahead: 3600 });
+                v.push(FuOp::Advance { secs: 3601 });
+                v.push(pos(B, 0, 99_000, DAY));
+                v.push(FuOp::Advance { secs: 10 * DAY });
             }
             "F12" => {
                 // the LP token is at its limit of concurrent farms (2) and every farm ever created had an explicit identifier
